@@ -589,6 +589,8 @@ fn name_of(kind: NameKind, p: &Proto) -> Option<Vec<u8>> {
 pub struct Stream {
     pub recs: Vec<Rec>,
     pub protos: Vec<Proto>,
+    /// class of each record for fingerprints: placement/role[/relation to its mate]
+    pub classes: Vec<String>,
 }
 
 /// Sorts the protos and computes every field, including consistent mate fields and TLEN.
@@ -732,7 +734,30 @@ pub fn finalise(mut protos: Vec<Proto>, refs: &[RefSeq]) -> Stream {
             }
         }
     }
-    Stream { recs, protos }
+    let classes = (0..protos.len())
+        .map(|i| {
+            let p = &protos[i];
+            let mut c = p.class();
+            if p.template.is_some() && p.role != Role::Single {
+                let r = &recs[i];
+                let rel = if r.flags & rec::UNMAPPED != 0 && r.flags & rec::MATE_UNMAPPED != 0 {
+                    "both-unmapped"
+                } else if r.flags & rec::UNMAPPED != 0 {
+                    "self-unmapped"
+                } else if r.flags & rec::MATE_UNMAPPED != 0 {
+                    "mate-unmapped"
+                } else if r.rid == r.mrid {
+                    "same-reference"
+                } else {
+                    "other-reference"
+                };
+                c.push('/');
+                c.push_str(rel);
+            }
+            c
+        })
+        .collect();
+    Stream { recs, protos, classes }
 }
 
 /// Human-readable description of a stream (goes into `decoded`).
